@@ -53,12 +53,13 @@ theorem configSt_canon (cfg : StCfg) : (exec (stepSt true) initSt (canonSt cfg))
 
 /-! ## Simulator -/
 
-/-- every cached evolved state was computed for the current circuit and heralds, in the current mask mode -/
-def InvSi (s : Si) : Prop :=
-  ∀ e ∈ s.evolve, ∃ c, s.circ = some c ∧ e.2 = (c, s.heralds, s.canMask)
+/-- every cached evolved state was computed for the current circuit, under the mask the current mode asks for
+(tuple keys) resp. under no mask (bare keys) -/
+structure InvSi (s : Si) : Prop where
+  ev : ∀ e ∈ s.evolve, ∃ c, s.circ = some c ∧ e.2 = (c, wantM s.canMask s.heralds e.1.2)
+  bare : ∀ e ∈ s.bare, ∃ c, s.circ = some c ∧ e.2 = (c, none)
 
-theorem invSi_init : InvSi initSi := by
-  intro e h; simp [initSi] at h
+theorem invSi_init : InvSi initSi := ⟨by simp [initSi], by simp [initSi]⟩
 
 theorem mem_lookupK {k : Nat × Nat} {l : List ((Nat × Nat) × SiGhost)} {g : SiGhost}
     (h : lookupK k l = some g) : (k, g) ∈ l := by
@@ -71,28 +72,135 @@ theorem mem_lookupK {k : Nat × Nat} {l : List ((Nat × Nat) × SiGhost)} {g : S
     · simp [hk] at h; subst h; subst hk; simp
     · simp [hk] at h; exact List.mem_cons_of_mem _ (ih h)
 
-/-- `evolveAll` keeps the invariant, leaves the configuration alone and returns current ghosts only -/
-theorem evolveAll_spec (c : Nat) (keys : List SiKey) :
+theorem mem_lookupN {α : Type} {k : Nat} {l : List (Nat × α)} {v : α} (h : lookup k l = some v) :
+    (k, v) ∈ l := by
+  induction l with
+  | nil => simp [lookup] at h
+  | cons x r ih =>
+    obtain ⟨k', v'⟩ := x
+    simp only [lookup] at h
+    by_cases hk : k' = k
+    · simp [hk] at h; subst h; subst hk; simp
+    · simp [hk] at h; exact List.mem_cons_of_mem _ (ih h)
+
+theorem wantM_zero (cm : Bool) (h : Nat) : wantM cm h 0 = none := by simp [wantM]
+
+/-- the walk of `_evolve_cache_with_n`, started with no mask on the backend, keeps the invariant, leaves the
+configuration alone and returns ghosts of the current configuration only -/
+theorem evolveAllF_spec (c : Nat) (fk : List (Bool × SiKey)) :
     ∀ s : Si, s.circ = some c → InvSi s →
-      InvSi (evolveAll s c keys).1 ∧
-      (evolveAll s c keys).1.circ = s.circ ∧ (evolveAll s c keys).1.heralds = s.heralds ∧
-      (evolveAll s c keys).1.nHeralds = s.nHeralds ∧ (evolveAll s c keys).1.other = s.other ∧
-      (evolveAll s c keys).1.canMask = s.canMask ∧
-      (∀ p ∈ (evolveAll s c keys).2, p.2 = (c, s.heralds, s.canMask)) ∧
-      (evolveAll s c keys).2.map (fun p => p.1.1) = keys.map (fun k => k.1) := by
-  induction keys with
-  | nil => intro s _ h; simp [evolveAll, h]
+      InvSi (evolveAllF s c none fk).1 ∧
+      (evolveAllF s c none fk).1.circ = s.circ ∧ (evolveAllF s c none fk).1.heralds = s.heralds ∧
+      (evolveAllF s c none fk).1.nHeralds = s.nHeralds ∧ (evolveAllF s c none fk).1.other = s.other ∧
+      (evolveAllF s c none fk).1.canMask = s.canMask ∧ (evolveAllF s c none fk).1.bare = s.bare ∧
+      (∀ p ∈ (evolveAllF s c none fk).2, p.2 = (c, wantM s.canMask s.heralds p.1.2)) ∧
+      (evolveAllF s c none fk).2.map (fun p => p.1.1) = (fk.filter (·.1)).map (fun k => k.2.1) := by
+  induction fk with
+  | nil => intro s _ h; simp [evolveAllF, h]
   | cons k r ih =>
     intro s hc h
-    obtain ⟨st, nExt, nOwn⟩ := k
-    simp only [evolveAll]
+    obtain ⟨fl, st, nExt, nOwn⟩ := k
+    simp only [evolveAllF]
     cases hl : lookupK (st, bestN s.canMask s.nHeralds nExt nOwn) s.evolve with
     | some g =>
-      obtain ⟨c', hc', hg⟩ := h _ (mem_lookupK hl)
+      obtain ⟨c', hc', hg⟩ := h.ev _ (mem_lookupK hl)
       rw [hc] at hc'; cases hc'
-      obtain ⟨i1, i2, i3, i4, i5, i6, i7, i8⟩ := ih s hc h
+      obtain ⟨i1, i2, i3, i4, i5, i6, i6b, i7, i8⟩ := ih s hc h
       simp at hg
-      refine ⟨i1, i2, i3, i4, i5, i6, ?_, ?_⟩
+      refine ⟨i1, i2, i3, i4, i5, i6, i6b, ?_, ?_⟩
+      · intro p hp
+        cases fl with
+        | true =>
+          simp at hp
+          rcases hp with rfl | hp
+          · exact hg
+          · exact i7 p hp
+        | false => simp at hp; exact i7 p hp
+      · cases fl <;> simp [i8]
+    | none =>
+      have hw : (if bestN s.canMask s.nHeralds nExt nOwn = 0 then (none : BMask)
+          else wantM s.canMask s.heralds (bestN s.canMask s.nHeralds nExt nOwn)) =
+          wantM s.canMask s.heralds (bestN s.canMask s.nHeralds nExt nOwn) := by
+        by_cases hz : bestN s.canMask s.nHeralds nExt nOwn = 0
+        · simp [hz, wantM_zero]
+        · simp [hz]
+      have h' : InvSi { s with
+          evolve := ((st, bestN s.canMask s.nHeralds nExt nOwn),
+            (c, if bestN s.canMask s.nHeralds nExt nOwn = 0 then (none : BMask)
+              else wantM s.canMask s.heralds (bestN s.canMask s.nHeralds nExt nOwn))) :: s.evolve,
+          bmask := if bestN s.canMask s.nHeralds nExt nOwn = 0 then s.bmask
+            else wantM s.canMask s.heralds (bestN s.canMask s.nHeralds nExt nOwn) } := by
+        refine ⟨?_, h.bare⟩
+        intro e he
+        simp at he
+        rcases he with rfl | he
+        · exact ⟨c, hc, by simp [hw]⟩
+        · exact h.ev e he
+      obtain ⟨i1, i2, i3, i4, i5, i6, i6b, i7, i8⟩ := ih _ (by simpa using hc) h'
+      refine ⟨i1, by simpa using i2, by simpa using i3, by simpa using i4, by simpa using i5,
+        by simpa using i6, by simpa using i6b, ?_, ?_⟩
+      · intro p hp
+        cases fl with
+        | true =>
+          simp at hp
+          rcases hp with rfl | hp
+          · simp [hw]
+          · simpa using i7 p hp
+        | false => simp at hp; simpa using i7 p hp
+      · cases fl <;> simp [i8]
+
+theorem evolveAllF_spec' (c : Nat) (fk : List (Bool × SiKey)) (s : Si) (bm0 : BMask) (hb : bm0 = none)
+    (hc : s.circ = some c) (h : InvSi s) :
+      InvSi (evolveAllF s c bm0 fk).1 ∧
+      (evolveAllF s c bm0 fk).1.circ = s.circ ∧ (evolveAllF s c bm0 fk).1.heralds = s.heralds ∧
+      (evolveAllF s c bm0 fk).1.nHeralds = s.nHeralds ∧ (evolveAllF s c bm0 fk).1.other = s.other ∧
+      (evolveAllF s c bm0 fk).1.canMask = s.canMask ∧ (evolveAllF s c bm0 fk).1.bare = s.bare ∧
+      (∀ p ∈ (evolveAllF s c bm0 fk).2, p.2 = (c, wantM s.canMask s.heralds p.1.2)) ∧
+      (evolveAllF s c bm0 fk).2.map (fun p => p.1.1) = (fk.filter (·.1)).map (fun k => k.2.1) := by
+  subst hb
+  exact evolveAllF_spec c fk s hc h
+
+theorem initUseMask_spec (s : Si) (pnr : Bool) (h : InvSi s) :
+    InvSi (initUseMask true s pnr) ∧ (initUseMask true s pnr).circ = s.circ ∧
+    (initUseMask true s pnr).heralds = s.heralds ∧ (initUseMask true s pnr).nHeralds = s.nHeralds ∧
+    (initUseMask true s pnr).other = s.other ∧ (initUseMask true s pnr).bmask = none := by
+  by_cases hm : ((s.heralds != 0) && pnr) = s.canMask
+  · have e : initUseMask true s pnr = { s with canMask := ((s.heralds != 0) && pnr), bmask := none } := by
+      simp [initUseMask, clearB, hm]
+    rw [e]
+    refine ⟨⟨?_, ?_⟩, rfl, rfl, rfl, rfl, rfl⟩
+    · intro e he
+      obtain ⟨c', hc', hg⟩ := h.ev e he
+      exact ⟨c', hc', by rw [hg]; simp [hm]⟩
+    · exact h.bare
+  · have e : initUseMask true s pnr =
+        { s with canMask := ((s.heralds != 0) && pnr), bmask := none, evolve := [], bare := [] } := by
+      simp [initUseMask, clearB, hm]
+    rw [e]
+    refine ⟨⟨?_, ?_⟩, rfl, rfl, rfl, rfl, rfl⟩
+    · intro e he; simp at he
+    · intro e he; simp at he
+
+/-- `_evolve_cache` with no mask on the backend -/
+theorem bareAll_spec (c : Nat) (sts : List Nat) :
+    ∀ s : Si, s.circ = some c → InvSi s → s.bmask = none →
+      InvSi (bareAll s c sts).1 ∧
+      (bareAll s c sts).1.circ = s.circ ∧ (bareAll s c sts).1.heralds = s.heralds ∧
+      (bareAll s c sts).1.nHeralds = s.nHeralds ∧ (bareAll s c sts).1.other = s.other ∧
+      (∀ p ∈ (bareAll s c sts).2, p.2 = (c, none)) ∧
+      (bareAll s c sts).2.map (fun p => p.1) = sts := by
+  induction sts with
+  | nil => intro s _ h _; simp [bareAll, h]
+  | cons st r ih =>
+    intro s hc h hb
+    simp only [bareAll]
+    cases hl : lookup st s.bare with
+    | some g =>
+      obtain ⟨c', hc', hg⟩ := h.bare _ (mem_lookupN hl)
+      rw [hc] at hc'; cases hc'
+      obtain ⟨i1, i2, i3, i4, i5, i7, i8⟩ := ih s hc h hb
+      simp at hg
+      refine ⟨i1, i2, i3, i4, i5, ?_, ?_⟩
       · intro p hp
         simp at hp
         rcases hp with rfl | hp
@@ -100,111 +208,227 @@ theorem evolveAll_spec (c : Nat) (keys : List SiKey) :
         · exact i7 p hp
       · simp [i8]
     | none =>
-      have h' : InvSi { s with evolve := ((st, bestN s.canMask s.nHeralds nExt nOwn), (c, s.heralds, s.canMask)) :: s.evolve } := by
+      have h' : InvSi { s with bare := (st, (c, s.bmask)) :: s.bare } := by
+        refine ⟨h.ev, ?_⟩
         intro e he
         simp at he
         rcases he with rfl | he
-        · exact ⟨c, hc, rfl⟩
-        · exact h e he
-      obtain ⟨i1, i2, i3, i4, i5, i6, i7, i8⟩ := ih _ (by simpa using hc) h'
-      refine ⟨i1, by simpa using i2, by simpa using i3, by simpa using i4, by simpa using i5,
-        by simpa using i6, ?_, ?_⟩
+        · exact ⟨c, hc, by simp [hb]⟩
+        · exact h.bare e he
+      obtain ⟨i1, i2, i3, i4, i5, i7, i8⟩ := ih _ (by simpa using hc) h' (by simpa using hb)
+      refine ⟨i1, by simpa using i2, by simpa using i3, by simpa using i4, by simpa using i5, ?_, ?_⟩
       · intro p hp
         simp at hp
         rcases hp with rfl | hp
-        · rfl
-        · simpa using i7 p hp
+        · simp [hb]
+        · exact i7 p hp
       · simp [i8]
 
-theorem initUseMask_spec (s : Si) (pnr : Bool) (h : InvSi s) :
-    InvSi (initUseMask true s pnr) ∧ (initUseMask true s pnr).circ = s.circ ∧
-    (initUseMask true s pnr).heralds = s.heralds ∧ (initUseMask true s pnr).nHeralds = s.nHeralds ∧
-    (initUseMask true s pnr).other = s.other := by
-  unfold initUseMask
-  by_cases hm : ((s.heralds != 0) && pnr) = s.canMask
-  · have : ¬ (true = true ∧ ((s.heralds != 0) && pnr) ≠ s.canMask) := by simp [hm]
-    rw [if_neg this]
-    refine ⟨?_, rfl, rfl, rfl, rfl⟩
-    intro e he
-    obtain ⟨c', hc', hg⟩ := h e he
-    exact ⟨c', hc', by rw [hg]; simp [hm]⟩
-  · have : (true = true ∧ ((s.heralds != 0) && pnr) ≠ s.canMask) := ⟨rfl, hm⟩
-    rw [if_pos this]
-    refine ⟨?_, rfl, rfl, rfl, rfl⟩
-    intro e he
-    simp at he
+theorem clearB_true (s : Si) : clearB true s = { s with bmask := none } := rfl
+
+theorem clearB_inv (s : Si) (h : InvSi s) : InvSi (clearB true s) := by
+  rw [clearB_true]
+  exact ⟨h.ev, h.bare⟩
 
 theorem invSi_step (s : Si) (op : SiOp) (h : InvSi s) : InvSi (stepSi true s op).1 := by
   cases op with
-  | setCircuit c => intro e he; simp [stepSi] at he
-  | setHeralds a n => intro e he; simp [stepSi] at he
-  | clearHeralds => intro e he; simp [stepSi] at he
-  | setOther o => exact h
+  | setCircuit c => exact ⟨by simp [stepSi], by simp [stepSi]⟩
+  | setHeralds a n => exact ⟨by simp [stepSi], by simp [stepSi]⟩
+  | clearHeralds => exact ⟨by simp [stepSi], by simp [stepSi]⟩
+  | setOther o => exact ⟨h.ev, h.bare⟩
   | probsSvd pnr generic keys =>
-    obtain ⟨i1, i2, _, _, _⟩ := initUseMask_spec s pnr h
+    obtain ⟨i1, i2, _, _, _, ib⟩ := initUseMask_spec s pnr h
     unfold stepSi
     cases hc : s.circ with
     | none => exact h
     | some c =>
+      have hc1 : (initUseMask true s pnr).circ = some c := by rw [i2]; exact hc
       cases generic with
-      | true => exact (evolveAll_spec c keys _ (by rw [i2]; exact hc) i1).1
-      | false => exact i1
+      | true => exact (evolveAllF_spec' c (allT keys) (initUseMask true s pnr) _ ib hc1 i1).1
+      | false =>
+        have i1' : InvSi { initUseMask true s pnr with evolve := [] } := ⟨by simp, i1.bare⟩
+        obtain ⟨_, j2, j3, _, _, j6, j7, _, _⟩ :=
+          evolveAllF_spec' c (allT keys) { initUseMask true s pnr with evolve := [] } _ ib hc1 i1'
+        refine ⟨?_, ?_⟩
+        · intro e he
+          obtain ⟨c', hc', hg⟩ := i1.ev e he
+          refine ⟨c', ?_, ?_⟩
+          · show (evolveAllF { initUseMask true s pnr with evolve := [] } c (initUseMask true s pnr).bmask
+              (allT keys)).1.circ = some c'
+            rw [j2]; exact hc'
+          · show e.2 = (c', wantM (evolveAllF { initUseMask true s pnr with evolve := [] } c
+                (initUseMask true s pnr).bmask (allT keys)).1.canMask
+              (evolveAllF { initUseMask true s pnr with evolve := [] } c (initUseMask true s pnr).bmask
+                (allT keys)).1.heralds e.1.2)
+            rw [j3, j6]; exact hg
+        · intro e he
+          have he' : e ∈ (initUseMask true s pnr).bare := by
+            have : e ∈ (evolveAllF { initUseMask true s pnr with evolve := [] } c (initUseMask true s pnr).bmask
+                (allT keys)).1.bare := he
+            rw [j7] at this; exact this
+          obtain ⟨c', hc', hg⟩ := i1.bare e he'
+          refine ⟨c', ?_, hg⟩
+          show (evolveAllF { initUseMask true s pnr with evolve := [] } c (initUseMask true s pnr).bmask
+            (allT keys)).1.circ = some c'
+          rw [j2]; exact hc'
   | evolve keys =>
-    obtain ⟨i1, i2, _, _, _⟩ := initUseMask_spec s true h
+    obtain ⟨i1, i2, _, _, _, ib⟩ := initUseMask_spec s true h
     unfold stepSi
     cases hc : s.circ with
     | none => exact h
-    | some c => exact (evolveAll_spec c keys _ (by rw [i2]; exact hc) i1).1
+    | some c =>
+      have hc1 : (initUseMask true s true).circ = some c := by rw [i2]; exact hc
+      exact (evolveAllF_spec' c (allT keys) (initUseMask true s true) _ ib hc1 i1).1
+  | evolveSvd groups =>
+    obtain ⟨i1, i2, _, _, _, ib⟩ := initUseMask_spec s true h
+    unfold stepSi
+    cases hc : s.circ with
+    | none => exact h
+    | some c =>
+      have hc1 : (initUseMask true s true).circ = some c := by rw [i2]; exact hc
+      exact (evolveAllF_spec' c (flagged groups) (initUseMask true s true) _ ib hc1 i1).1
+  | probs sts =>
+    unfold stepSi
+    cases hc : s.circ with
+    | none => exact h
+    | some c => exact (bareAll_spec c sts (clearB true s) (by simpa [clearB] using hc) (clearB_inv s h) (by simp [clearB])).1
+  | direct sts =>
+    unfold stepSi
+    cases hc : s.circ with
+    | none => exact h
+    | some c => exact clearB_inv s h
 
-theorem siAnswer_current (s : Si) (c : Nat) (keys : List SiKey)
+theorem siAnswer_current (s : Si) (c : Nat) (sts : List Nat)
     (parts : List ((Nat × Nat) × SiGhost))
-    (hp : ∀ p ∈ parts, p.2 = (c, s.heralds, s.canMask))
-    (hk : parts.map (fun p => p.1.1) = keys.map (fun k => k.1)) :
-    siAnswer s parts = .res (keys.map fun k => (k.1, c, s.heralds)) s.heralds s.other := by
-  have hall : parts.all (fun p => p.2.2.2 == s.canMask) = true := by
+    (hp : ∀ p ∈ parts, p.2 = (c, wantM s.canMask s.heralds p.1.2))
+    (hk : parts.map (fun p => p.1.1) = sts) :
+    siAnswer s parts = .res (sts.map fun st => (st, c)) s.heralds s.other := by
+  have hall : parts.all (fun p => p.2.2 == wantM s.canMask s.heralds p.1.2) = true := by
     simp only [List.all_eq_true]
     intro p hpm
     simp [hp p hpm]
-  have hmap : parts.map (fun p => (p.1.1, p.2.1, p.2.2.1)) = keys.map (fun k => (k.1, c, s.heralds)) := by
-    have : parts.map (fun p => (p.1.1, p.2.1, p.2.2.1)) = (parts.map (fun p => p.1.1)).map (fun a => (a, c, s.heralds)) := by
+  have hmap : parts.map (fun p => (p.1.1, p.2.1)) = sts.map (fun st => (st, c)) := by
+    have : parts.map (fun p => (p.1.1, p.2.1)) = (parts.map (fun p => p.1.1)).map (fun a => (a, c)) := by
       simp only [List.map_map]
       apply List.map_congr_left
       intro p hpm
       simp [hp p hpm]
-    rw [this, hk]; simp
+    rw [this, hk]
   simp [siAnswer, hall, hmap]
 
-/-- answer of the generic path in terms of the configuration -/
-theorem evolveAll_answer (s : Si) (c : Nat) (keys : List SiKey) (hc : s.circ = some c) (h : InvSi s) :
-    siAnswer (evolveAll s c keys).1 (evolveAll s c keys).2 =
-      .res (keys.map fun k => (k.1, c, s.heralds)) s.heralds s.other := by
-  obtain ⟨_, _, i3, _, i5, i6, i7, i8⟩ := evolveAll_spec c keys s hc h
-  rw [siAnswer_current _ c keys _ (by rw [i3, i6]; exact i7) i8, i3, i5]
+theorem allT_filter (keys : List SiKey) :
+    ((allT keys).filter (·.1)).map (fun k => k.2.1) = keys.map (fun k => k.1) := by
+  induction keys with
+  | nil => rfl
+  | cons k r ih => simpa [allT] using ih
+
+/-- answer of a walk in terms of the configuration -/
+theorem evolveAllF_answer (s : Si) (c : Nat) (fk : List (Bool × SiKey)) (bm0 : BMask) (hb : bm0 = none)
+    (hc : s.circ = some c) (h : InvSi s) :
+    siAnswer (evolveAllF s c bm0 fk).1 (evolveAllF s c bm0 fk).2 =
+      .res (((fk.filter (·.1)).map (fun k => k.2.1)).map fun st => (st, c)) s.heralds s.other := by
+  obtain ⟨_, _, i3, _, i5, i6, _, i7, i8⟩ := evolveAllF_spec' c fk s bm0 hb hc h
+  rw [siAnswer_current _ c _ _ (by rw [i3, i6]; exact i7) i8, i3, i5]
+
+theorem specSi_allT (cfg : SiCfg) (c : Nat) (keys : List SiKey) (hc : cfg.circ = some c) :
+    specSi cfg keys =
+      .res ((((allT keys).filter (·.1)).map (fun k => k.2.1)).map fun st => (st, c)) cfg.heralds cfg.other := by
+  simp [specSi, hc, allT_filter, List.map_map, Function.comp_def]
 
 theorem evolveSi_spec (s : Si) (keys : List SiKey) (h : InvSi s) :
     (stepSi true s (.evolve keys)).2 = specSi s.config keys := by
-  obtain ⟨i1, i2, i3, _, i5⟩ := initUseMask_spec s true h
-  unfold stepSi specSi Si.config
+  obtain ⟨i1, i2, i3, _, i5, ib⟩ := initUseMask_spec s true h
+  unfold stepSi
   cases hc : s.circ with
-  | none => rfl
+  | none => simp [specSi, Si.config, hc]
   | some c =>
-    have := evolveAll_answer _ c keys (by rw [i2]; exact hc) i1
+    simp only [if_true]
+    rw [specSi_allT s.config c keys (by simpa [Si.config] using hc)]
+    have hc1 : (initUseMask true s true).circ = some c := by rw [i2]; exact hc
+    have := evolveAllF_answer _ c (allT keys) _ ib hc1 i1
     rw [i3, i5] at this
     exact this
 
 theorem probsSvdSi_spec (s : Si) (pnr generic : Bool) (keys : List SiKey) (h : InvSi s) :
     (stepSi true s (.probsSvd pnr generic keys)).2 = specSi s.config keys := by
-  obtain ⟨i1, i2, i3, _, i5⟩ := initUseMask_spec s pnr h
-  unfold stepSi specSi Si.config
+  obtain ⟨i1, i2, i3, _, i5, ib⟩ := initUseMask_spec s pnr h
+  unfold stepSi
   cases hc : s.circ with
-  | none => rfl
+  | none => simp [specSi, Si.config, hc]
   | some c =>
+    rw [specSi_allT s.config c keys (by simpa [Si.config] using hc)]
+    have hc1 : (initUseMask true s pnr).circ = some c := by rw [i2]; exact hc
     cases generic with
     | true =>
-      have := evolveAll_answer _ c keys (by rw [i2]; exact hc) i1
+      simp only [if_true]
+      have := evolveAllF_answer _ c (allT keys) _ ib hc1 i1
       rw [i3, i5] at this
       exact this
-    | false => simp only [i3, i5]; rfl
+    | false =>
+      have i1' : InvSi { initUseMask true s pnr with evolve := [] } := ⟨by simp, i1.bare⟩
+      have := evolveAllF_answer { initUseMask true s pnr with evolve := [] } c (allT keys) _ ib hc1 i1'
+      have e3 : ({ initUseMask true s pnr with evolve := [] } : Si).heralds = s.heralds := i3
+      have e5 : ({ initUseMask true s pnr with evolve := [] } : Si).other = s.other := i5
+      rw [e3, e5] at this
+      exact this
+
+theorem evolveSvdSi_spec (s : Si) (groups : List (Bool × List SiKey)) (h : InvSi s) :
+    (stepSi true s (.evolveSvd groups)).2 = specSi s.config (usedKeys groups) := by
+  obtain ⟨i1, i2, i3, _, i5, ib⟩ := initUseMask_spec s true h
+  unfold stepSi
+  cases hc : s.circ with
+  | none => simp [specSi, Si.config, hc]
+  | some c =>
+    have hc1 : (initUseMask true s true).circ = some c := by rw [i2]; exact hc
+    have := evolveAllF_answer _ c (flagged groups) _ ib hc1 i1
+    rw [i3, i5] at this
+    simp only []
+    rw [this]
+    simp [specSi, Si.config, hc, usedKeys, List.map_map, Function.comp_def]
+
+theorem probsSi_spec (s : Si) (sts : List Nat) (h : InvSi s) :
+    (stepSi true s (.probs sts)).2 = specSiQ s.config (.probs sts) := by
+  unfold stepSi specSiQ
+  cases hc : s.circ with
+  | none => simp [Si.config, hc]
+  | some c =>
+    obtain ⟨_, _, i3, _, i5, i7, i8⟩ :=
+      bareAll_spec c sts (clearB true s) (by simpa [clearB] using hc) (clearB_inv s h) (by simp [clearB])
+    have hall : (bareAll (clearB true s) c sts).2.all (fun p => p.2.2 == none) = true := by
+      simp only [List.all_eq_true]
+      intro p hpm
+      simp [i7 p hpm]
+    have hmap : (bareAll (clearB true s) c sts).2.map (fun p => (p.1, p.2.1)) = sts.map (fun st => (st, c)) := by
+      have : (bareAll (clearB true s) c sts).2.map (fun p => (p.1, p.2.1)) =
+          ((bareAll (clearB true s) c sts).2.map (fun p => p.1)).map (fun a => (a, c)) := by
+        simp only [List.map_map]
+        apply List.map_congr_left
+        intro p hpm
+        simp [i7 p hpm]
+      rw [this, i8]
+    simp only [hall, if_true, hmap, i3, i5]
+    simp [Si.config, hc, clearB]
+
+theorem directSi_spec (s : Si) (sts : List Nat) (_h : InvSi s) :
+    (stepSi true s (.direct sts)).2 = specSiQ s.config (.direct sts) := by
+  unfold stepSi specSiQ
+  cases hc : s.circ with
+  | none => simp [Si.config, hc]
+  | some c => simp [Si.config, hc, clearB]
+
+/-- under the invariant every query has the closed form `specSiQ` of the configuration -/
+theorem querySi_spec (s : Si) (q : SiOp) (hq : q.isQuery = true) (h : InvSi s) :
+    (stepSi true s q).2 = specSiQ s.config q := by
+  cases q with
+  | probsSvd pnr generic keys => exact probsSvdSi_spec s pnr generic keys h
+  | evolve keys => exact evolveSi_spec s keys h
+  | evolveSvd groups => exact evolveSvdSi_spec s groups h
+  | probs sts => exact probsSi_spec s sts h
+  | direct sts => exact directSi_spec s sts h
+  | setCircuit c => simp [SiOp.isQuery] at hq
+  | setHeralds a n => simp [SiOp.isQuery] at hq
+  | clearHeralds => simp [SiOp.isQuery] at hq
+  | setOther o => simp [SiOp.isQuery] at hq
 
 theorem configSi_canon (cfg : SiCfg) : (exec (stepSi true) initSi (canonSi cfg)).config = cfg := by
   obtain ⟨c, a, n, o⟩ := cfg
@@ -212,73 +436,195 @@ theorem configSi_canon (cfg : SiCfg) : (exec (stepSi true) initSi (canonSi cfg))
 
 /-! ## Processor -/
 
-structure InvPr (s : Pr) : Prop where
+structure InvPr (persist : Bool) (s : Pr) : Prop where
+  /-- the source was built from the noise values of the last assignment -/
   src : s.source = s.noise
-  sim : ∀ g, s.sim = some g → g = s.sel
-  imap : ∀ x, s.inputsMap = some x → ∃ i, s.input = some i ∧ x = (s.noise, i)
+  /-- the kept simulator was built for the current heralds and post-selection, and has the default precision
+  unless the last call gave one -/
+  sim : ∀ g, s.sim = some g → g.her = s.her ∧ g.ps = s.ps ∧ (s.precSet = false → g.prec = none)
+  /-- the cached input distribution was generated by the current source from the current input -/
+  imap : ∀ x, s.inputsMap = some x → ∃ i, s.input = some i ∧ x = genMap s.noise i
+  /-- unless the automatic rule wrote it, the stored filter is the one the user asked for -/
+  filt : s.auto = false → s.filt = s.filtUser
+  noauto : persist = false → s.auto = false
 
-theorem invPr_init : InvPr initPr := ⟨rfl, by simp [initPr], by simp [initPr]⟩
+theorem invPr_init (persist : Bool) : InvPr persist initPr :=
+  ⟨rfl, by simp [initPr], by simp [initPr], by simp [initPr], by simp [initPr]⟩
 
-theorem invPr_step (s : Pr) (op : PrOp) (h : InvPr s) : InvPr (stepPr s op).1 := by
-  obtain ⟨h1, h2, h3⟩ := h
+theorem simFor_eq (s : Pr) (prec : Option Nat)
+    (h2 : ∀ g, s.sim = some g → g.her = s.her ∧ g.ps = s.ps ∧ (s.precSet = false → g.prec = none)) :
+    simFor s prec = ⟨s.her, s.ps, prec⟩ := by
+  unfold simFor
+  cases prec with
+  | some p =>
+    simp only [reduceCtorEq, false_and, if_false, SimG.withPrec]
+    cases hs : s.sim with
+    | none => rfl
+    | some g => obtain ⟨a1, a2, _⟩ := h2 _ hs; simp [a1, a2]
+  | none =>
+    simp only [true_and, SimG.withPrec]
+    cases hps : s.precSet with
+    | true => rfl
+    | false =>
+      simp only [Bool.false_eq_true, if_false]
+      cases hs : s.sim with
+      | none => rfl
+      | some g =>
+        obtain ⟨a1, a2, a3⟩ := h2 _ hs
+        obtain ⟨x, y, z⟩ := g
+        simp at a1 a2
+        have := a3 hps
+        simp at this
+        simp [a1, a2, this]
+
+theorem invPr_step (persist : Bool) (s : Pr) (op : PrOp) (h : InvPr persist s) :
+    InvPr persist (stepPr persist s op).1 := by
+  obtain ⟨h1, h2, h3, h4, h5⟩ := h
   cases op with
-  | setComps c => exact ⟨h1, h2, h3⟩
-  | addComp c sel => exact ⟨h1, by simp [stepPr], h3⟩
-  | setNoise n => exact ⟨rfl, h2, by simp [stepPr]⟩
-  | withInput i => exact ⟨h1, h2, by simp [stepPr, h1]⟩
-  | setFilter k => exact ⟨h1, h2, h3⟩
-  | probs =>
+  | setComps c => exact ⟨h1, h2, h3, h4, h5⟩
+  | addComp c => exact ⟨h1, by simp [stepPr], h3, h4, h5⟩
+  | addDet d => exact ⟨h1, by simp [stepPr], h3, h4, h5⟩
+  | addHerald a n => exact ⟨h1, by simp [stepPr], h3, h4, h5⟩
+  | setPs p => exact ⟨h1, by simp [stepPr], h3, h4, h5⟩
+  | clearPs =>
+    simp only [stepPr]
+    by_cases hp : s.ps = 0
+    · simp only [hp, if_true]; exact ⟨h1, h2, h3, h4, h5⟩
+    · simp only [hp, if_false]; exact ⟨h1, by simp, h3, h4, h5⟩
+  | setNoise v =>
+    refine ⟨rfl, h2, ?_, h4, h5⟩
+    intro x hx
+    simp only [stepPr] at hx ⊢
+    cases hi : s.input with
+    | none => simp [hi] at hx
+    | some i =>
+      simp only [hi] at hx
+      by_cases hk : i.kind = .svd
+      · simp only [hk, if_true] at hx
+        obtain ⟨i', hi', hy⟩ := h3 x hx
+        rw [hi] at hi'; cases hi'
+        refine ⟨i, rfl, ?_⟩
+        rw [hy]; simp [genMap, hk]
+      · simp [hk] at hx
+  | mutateNoise v => exact ⟨h1, h2, h3, h4, h5⟩
+  | withInput k i n => exact ⟨h1, h2, by simp [stepPr, h1], h4, h5⟩
+  | setFilter k => exact ⟨h1, h2, h3, by simp [stepPr], by simp [stepPr]⟩
+  | probs prec =>
     simp only [stepPr]
     cases hi : s.input with
-    | none => exact ⟨h1, h2, h3⟩
+    | none => exact ⟨h1, h2, h3, h4, h5⟩
     | some i =>
-      cases hf : s.filt with
-      | none => exact ⟨h1, h2, h3⟩
+      simp only []
+      cases hf : effFilter s i with
+      | none => exact ⟨h1, h2, h3, h4, h5⟩
       | some f =>
-        refine ⟨h1, ?_, ?_⟩
+        simp only []
+        refine ⟨h1, ?_, ?_, ?_, ?_⟩
         · intro g hg
-          cases hs : s.sim with
-          | none => simp [hs] at hg; exact hg.symm
-          | some g' => simp [hs] at hg; subst hg; exact h2 _ hs
+          simp only [Option.some.injEq] at hg
+          subst hg
+          rw [simFor_eq s prec h2]
+          refine ⟨rfl, rfl, ?_⟩
+          intro hp
+          cases prec with
+          | none => rfl
+          | some p => simp at hp
         · intro x hx
+          simp only [Option.some.injEq] at hx
+          subst hx
           cases hm : s.inputsMap with
-          | none => simp [hm] at hx; exact ⟨i, rfl, by rw [← hx, h1]⟩
+          | none => exact ⟨i, rfl, by simp [h1]⟩
           | some y =>
-            simp [hm] at hx; subst hx
             obtain ⟨i', hi', hy⟩ := h3 _ hm
-            rw [hi] at hi'
-            exact ⟨i', hi', hy⟩
+            rw [hi] at hi'; cases hi'
+            exact ⟨i, rfl, by simpa using hy⟩
+        · intro ha
+          cases persist with
+          | false => simpa using h4 (by simpa using ha)
+          | true =>
+            simp only [if_true, Bool.or_eq_false_iff] at ha
+            obtain ⟨ha1, ha2⟩ := ha
+            have hfu := h4 ha1
+            cases hsf : s.filt with
+            | none => simp [hsf] at ha2
+            | some f0 =>
+              simp only [effFilter, autoFilter, hsf, Option.some.injEq] at hf
+              subst hf
+              simp only [if_true]
+              rw [← hfu, hsf]
+        · intro hp
+          subst hp
+          simpa using h5 rfl
 
-def specPr (cfg : PrCfg) : PrOut :=
-  match cfg.input, cfg.filt with
-  | some i, some f => .res cfg.comps cfg.sel cfg.noise i f
-  | _, _ => .exc "NotConfigured"
-
-theorem probsPr_spec (s : Pr) (h : InvPr s) : (stepPr s .probs).2 = specPr s.config := by
-  obtain ⟨h1, h2, h3⟩ := h
+/-- under the invariant, with an input given after the last herald and a filter that was not written by the
+automatic rule, `probs(precision)` has the closed form `specPr` of the configuration -/
+theorem probsPr_spec (persist : Bool) (s : Pr) (prec : Option Nat) (h : InvPr persist s)
+    (hc : s.inputCurrent) (ha : s.auto = false) :
+    (stepPr persist s (.probs prec)).2 = specPr s.config prec := by
+  obtain ⟨h1, h2, h3, h4, _⟩ := h
+  have hfu := h4 ha
   simp only [stepPr, specPr, Pr.config]
   cases hi : s.input with
   | none => rfl
   | some i =>
-    cases hf : s.filt with
+    obtain ⟨hc1, hc2⟩ := hc i hi
+    have hef : effFilter s i = autoFilter s.filtUser s.noise.2 i.kind i.n := by
+      simp only [effFilter, hfu, h1]
+      by_cases hk : i.kind = InKind.bs
+      · simp [hk, hc2]
+      · cases s.filtUser <;> simp [autoFilter, hk]
+    simp only [Option.map_some, hef]
+    cases hq : autoFilter s.filtUser s.noise.2 i.kind i.n with
     | none => rfl
     | some f =>
-      have e1 : s.sim.getD s.sel = s.sel := by
-        cases hs : s.sim with
-        | none => rfl
-        | some g => simpa using h2 _ hs
-      have e2 : s.inputsMap.getD (s.source, i) = (s.noise, i) := by
+      simp only []
+      have e2 : s.inputsMap.getD (genMap s.source i) = genMap s.noise i := by
         cases hm : s.inputsMap with
         | none => simp [h1]
         | some y =>
           obtain ⟨i', hi', hy⟩ := h3 _ hm
           rw [hi] at hi'; cases hi'; simpa using hy
-      simp only []
-      rw [e1, e2]
+      rw [e2, simFor_eq s prec h2]
+      simp only [genMap, hc1]
 
-theorem configPr_canon (cfg : PrCfg) : (exec stepPr initPr (canonPr cfg)).config = cfg := by
-  obtain ⟨c, sel, n, i, f⟩ := cfg
-  cases i <;> cases f <;> simp [canonPr, exec, run, stepPr, initPr, Pr.config]
+/-- two states that differ at most in what the held NoiseModel object shows, unless the noise is assigned -/
+def sameButHeld (a b : Pr) : Prop := ∃ v, { a with held := v } = b
+
+theorem sameButHeld_step (persist : Bool) (a b : Pr) (op : PrOp) (h : sameButHeld a b) :
+    sameButHeld (stepPr persist a op).1 (stepPr persist b op).1 ∧
+      (stepPr persist a op).2 = (stepPr persist b op).2 := by
+  obtain ⟨v, rfl⟩ := h
+  obtain ⟨c, hr, nh, ps, d, hl, nz, src, inp, fu, fl, au, im, sm, pset⟩ := a
+  cases op with
+  | probs prec =>
+    cases inp with
+    | none => exact ⟨⟨v, rfl⟩, rfl⟩
+    | some i =>
+      simp only [stepPr, effFilter, sameButHeld]
+      cases autoFilter fl src.2 i.kind (i.n + i.nHer - nh) <;> exact ⟨⟨v, rfl⟩, rfl⟩
+  | clearPs =>
+    simp only [stepPr, sameButHeld]
+    by_cases hp : ps = 0
+    · simp only [hp, if_true]; exact ⟨⟨v, rfl⟩, trivial⟩
+    · simp only [hp, if_false]; exact ⟨⟨v, rfl⟩, trivial⟩
+  | setNoise w => exact ⟨⟨w, rfl⟩, rfl⟩
+  | mutateNoise w => exact ⟨⟨w, rfl⟩, rfl⟩
+  | _ => exact ⟨⟨v, rfl⟩, rfl⟩
+
+/-- the canonical sequence reproduces every configuration, with a current input and no automatic filter -/
+theorem canonPr_state (persist : Bool) (cfg : PrCfg) :
+    (exec (stepPr persist) initPr (canonPr cfg)).config = cfg ∧
+    (exec (stepPr persist) initPr (canonPr cfg)).inputCurrent ∧
+    (exec (stepPr persist) initPr (canonPr cfg)).auto = false := by
+  obtain ⟨c, hd, nh, ps, d, nz, i, f⟩ := cfg
+  by_cases hp : ps = 0 <;> cases i with
+  | none =>
+    cases f <;>
+      simp [canonPr, exec, run, stepPr, initPr, Pr.config, Pr.inputCurrent, hp]
+  | some x =>
+    obtain ⟨k, ii, n⟩ := x
+    cases f <;> cases k <;>
+      simp [canonPr, exec, run, stepPr, initPr, Pr.config, Pr.inputCurrent, hp]
 
 /-! ## Backends -/
 
